@@ -4,7 +4,7 @@
 // is_empty, first/last_key_value, PartialEq/Eq, Debug).  Self-checked by `map_model_contract`
 // harnesses in the crates that include it.  CAP is the bound on distinct keys; exceeding it is a
 // harness error (asserted), never silent.
-pub const MAP_CAP: usize = 4;
+// The including crate defines `pub const MAP_CAP: usize = N;` before including this file.
 
 #[derive(Clone, Copy)]
 pub struct BTreeMap<K: Copy + Ord, V: Copy> {
